@@ -8,10 +8,11 @@ import Slock.Proofs.ReplBatch
 Part 1: the replication ring buffer (`ReplicationBufferQueue`), model `Slock.Repl` (lean/Slock/Model/Repl.lean), for ALL
 operation sequences of any length (induction over the list in `run_inv`).
 
-`Guarded s ops` are the two side conditions under which the statements hold (both are what the surrounding server code
-intends): `AddPoll` is not applied to a cursor whose item has meanwhile been recycled into the FREE list, and `RemovePoll`
-only undoes an earlier `AddPoll`. Without the first one the unchanged code violates the statements
-(`C09_no_gap_fails`, `C09_out_of_buf_fails`; the same sequence is replayed on the real queue by the harness).
+`Guarded s ops` is the one remaining side condition: `RemovePoll` only undoes an earlier `AddPoll` (the server pairs them;
+at the handshake level this is proved, see `C09_sync_inv`). The former second condition — `AddPoll` is not applied to a cursor
+whose item has meanwhile been recycled into the free list — is gone: since the repair `fix: AddPoll re-validates the cursor`
+AddPoll starts walking only from an item that still carries the cursor's `seq` and is not marked as recycled (`addStart`);
+`C09_stale_addpoll_repaired` replays the sequence that used to violate NO GAP / OUT OF BUF.
 `numAdds ops < M32`: fewer than 2^32-1 `AddPoll` calls (uint32 `pollCount` does not reach the recycled mark).
 -/
 namespace Slock.C09
@@ -25,12 +26,12 @@ theorem reachable_inv (b m : Nat) (ops : List Op) (hg : Guarded (Sys.init b m) o
   have := run_inv ops (sysInv_init b m) hg (by omega)
   simpa using this
 
-/-- NO GAP (`_partial`: under `Guarded`). After any guarded operation sequence, a successful `Pop` of any cursor returns
+/-- NO GAP. After any operation sequence (`Guarded`: RemovePoll only after AddPoll), a successful `Pop` of any cursor returns
 exactly the record pushed at position `c'.seq`, and that position is the successor of the cursor's previous position
 `c.seq` (the position of the last record it obtained by Pop / Head / Search) — or any buffered position if the cursor
 had none (`seqNone`). Hence the records a cursor pops between two repositionings are a contiguous run of the pushed
-sequence: no skip, no duplicate, no reorder. Missing for the full statement: the guard (see `C09_no_gap_fails`). -/
-theorem C09_no_gap_partial (b m : Nat) (ops : List Op) (hg : Guarded (Sys.init b m) ops) (hA : numAdds ops < M32)
+sequence: no skip, no duplicate, no reorder. -/
+theorem C09_no_gap (b m : Nat) (ops : List Op) (hg : Guarded (Sys.init b m) ops) (hA : numAdds ops < M32)
     (n : Nat) (c c' : Cursor) (hc : getC (run (Sys.init b m) ops).cs n = some c)
     (hp : pop (run (Sys.init b m) ops).q c = (.ok, c')) :
     c'.seq < (pushedOf ops).length ∧ (pushedOf ops)[c'.seq]? = some (c'.bufId, c'.bufOrd, c'.dlen) ∧
@@ -39,40 +40,31 @@ theorem C09_no_gap_partial (b m : Nat) (ops : List Op) (hg : Guarded (Sys.init b
   obtain ⟨g1, g2, g3, _⟩ := pop_ok h.q hA (h.cur n c hc).1 hp
   exact ⟨by rw [← h.q.seq]; exact g1, g2, g3⟩
 
-/-- the sequence of `C09_no_gap_fails`: Head positions cursor 0 at the very first record (seq 0); five pushes recycle that
-record's item and two more into the free list; AddPoll (which the server performs only after the client's "started"
-message) walks the FREE list from the stale pointer and turns the recycled marks 0xffffffff into 0. -/
+/-- the sequence that violated NO GAP / OUT OF BUF before the repair: Head positions cursor 0 at the very first record (seq 0);
+five pushes recycle that record's item and two more into the free list; then AddPoll (which the server performs only after the
+client's "started" message). Before the repair AddPoll walked the FREE list from the stale pointer and turned the recycled marks
+0xffffffff into 0, after which the cursor was served stale records #2, #3 and then EOF for ever. -/
 def staleOps : List Op :=
   [.push 1 0 0, .cursor 0, .head 0, .push 2 1 200, .push 3 2 0, .push 4 3 0, .push 5 4 200, .push 6 5 0, .add 0]
 
-/-- NO GAP fails on the unchanged code without the guard: after `staleOps` (buffer of 256 bytes) cursor 0, which holds
-record #0, pops record #2 (stale bytes of a recycled item; #1 is skipped), keeps `seq = 0`, and the record is not the
-one pushed at the position it reports. -/
-theorem C09_no_gap_fails :
-    ∃ c c', getC (run (Sys.init 256 256) staleOps).cs 0 = some c ∧ pop (run (Sys.init 256 256) staleOps).q c = (.ok, c') ∧
-      c.seq = 0 ∧ c.bufOrd = 0 ∧ c'.bufOrd = 2 ∧ c'.seq ≠ c.seq + 1 ∧
-      (pushedOf staleOps)[c'.seq]? ≠ some (c'.bufId, c'.bufOrd, c'.dlen) := by
-  refine ⟨_, _, rfl, rfl, ?_⟩
-  decide
+/-- regression example of the repaired behaviour: the sequence is (trivially) guarded, the free list keeps its marks, and the
+overtaken cursor gets "out of buf" — now and on every later Pop. -/
+theorem C09_stale_addpoll_repaired :
+    Guarded (Sys.init 256 256) staleOps ∧
+    (∀ it ∈ (run (Sys.init 256 256) staleOps).q.free, it.pollCount = M32) ∧
+    (step (run (Sys.init 256 256) staleOps) (.pop 0)).2 =
+      .res .oob { cur := some 0, bufId := 1, bufOrd := 0, dlen := 0, seq := 0, writed := false } ∧
+    (step (run (Sys.init 256 256) (staleOps ++ [.pop 0, .pop 0])) (.pop 0)).2 =
+      .res .oob { cur := some 0, bufId := 1, bufOrd := 0, dlen := 0, seq := 0, writed := false } := by decide
 
-/-- OUT OF BUF (`_partial`: under `Guarded`). A cursor that has a position and whose successor record has left the buffer
+/-- OUT OF BUF. After any operation sequence (`Guarded`: RemovePoll only after AddPoll) a cursor that has a position and whose successor record has left the buffer
 (`c.seq + 1 < tailSeq`) gets the error "out of buf" from `Pop` and stays where it is — never an item, never EOF. -/
-theorem C09_out_of_buf_partial (b m : Nat) (ops : List Op) (hg : Guarded (Sys.init b m) ops) (hA : numAdds ops < M32)
+theorem C09_out_of_buf (b m : Nat) (ops : List Op) (hg : Guarded (Sys.init b m) ops) (hA : numAdds ops < M32)
     (n : Nat) (c : Cursor) (hc : getC (run (Sys.init b m) ops).cs n = some c)
     (hn : c.seq ≠ seqNone) (hov : c.seq + 1 < tailSeq (run (Sys.init b m) ops).q) :
     pop (run (Sys.init b m) ops).q c = (.oob, c) := by
   have h := reachable_inv b m ops hg hA
   exact pop_overtaken h.q hn hov (fun sid hs => locate_isSome ((h.cur n c hc).2 sid hs))
-
-/-- OUT OF BUF fails on the unchanged code without the guard: after `staleOps` the oldest buffered record is #5, cursor 0
-is at #0 (overtaken), and `Pop` returns an item instead of the error; two pops later it gets EOF for ever. -/
-theorem C09_out_of_buf_fails :
-    ∃ c, getC (run (Sys.init 256 256) staleOps).cs 0 = some c ∧ c.seq ≠ seqNone ∧
-      c.seq + 1 < tailSeq (run (Sys.init 256 256) staleOps).q ∧ (pop (run (Sys.init 256 256) staleOps).q c).1 = .ok ∧
-      (pop (run (Sys.init 256 256) (staleOps ++ [.pop 0, .pop 0])).q
-        ((getC (run (Sys.init 256 256) (staleOps ++ [.pop 0, .pop 0])).cs 0).getD newCursor)).1 = .eof := by
-  refine ⟨_, rfl, ?_⟩
-  decide
 
 /-- SEARCH. After any guarded operation sequence `Search id` succeeds iff a record with that aof id is still buffered;
 it then positions the cursor at the OLDEST buffered record with that id (position, content); otherwise it reports
@@ -128,15 +120,15 @@ cursor's item is record m (written) or m+1 (in hand) — or the cursor has no po
 every event kind (`append_step`, `connect_step`, `start_step`, `deliverFiles_step`, `deliverStream_step`, `cut_step`,
 `restartSame_step`, `restartEmpty_step`) and hence, by induction over the list, after every guarded sequence of ANY length.
 
-Guards (`EvOk`, decidable; `SGuarded` = every event of the sequence satisfies its guard in the state it is applied to) —
-each excludes exactly one recorded defect of the unchanged code, and for each the counterexample below shows it is needed:
-* `start`: `AddGuard` — the cursor's item was not recycled into the free list between `connect` and "started"
-  (`C09_resync_fails_stale_addpoll`; queue level: `C09_no_gap_fails`);
-* `cut`: `CutGuard` — the id the live follower will report is the id of the last record it has applied; false exactly
-  between "started" of a transfer from scratch and the arrival of its first record (`C09_resync_fails_early_cut`);
+`SInv` now also says, for every follower in EVERY phase: the id it would report (`curId`) is the id of the last record it has
+applied — this is what the repair `fix: InitSync …` establishes (the client no longer stores the leader's answer H as its own
+position before a record has arrived), so `cut` needs no guard any more.
+
+Guards that remain (`EvOk`, decidable; `SGuarded` = every event satisfies its guard in the state it is applied to):
 * `deliver` (stream): `FreshGuard` — a cursor without a position (handshake answered on an empty buffer) takes its first
-  record while record 1 is still buffered (`C09_resync_fails_empty_buffer`);
+  record while record 1 is still buffered (`C09_resync_fails_empty_buffer` shows it is needed; not repaired);
 * `append`: fewer than 2^64-1 records; and `numStarts < 2^32-1` (uint32 pollCount).
+Repaired, formerly guards: `AddGuard` at `start` (`C09_stale_start_repaired`), `CutGuard` at `cut` (`C09_early_cut_repaired`).
 ASSUMED AWAY (not a guard, a modelling decision): `LoadAofFile`'s per-record filter — the file phase transfers every record
 with id < H, i.e. no record's own deadline passes during the run (finding `expired-record`, process level).
 That RemovePoll only undoes an AddPoll is proved here (pollCount = number of registered channels), not assumed.
@@ -167,26 +159,38 @@ theorem C09_converge (b m : Nat) (evs : List Ev) (hg : SGuarded (Sync.init b m) 
   obtain ⟨hist, h⟩ := C09_sync_inv b m evs hg hA
   exact sinv_converge h f hc hi
 
-/-! ### each guard is needed: the unchanged code violates RESYNC / CONVERGE without it -/
+/-! ### regression examples of the two repairs, and the guard that is still needed -/
 
 def earlyCut : List Ev :=
-  [.append 0, .append 0, .connect 1, .start 1, .cut 1, .connect 1, .start 1, .append 0, .deliver 1, .deliver 1]
+  [.append 0, .append 0, .connect 1, .start 1, .cut 1, .connect 1, .start 1, .append 0, .deliver 1, .deliver 1, .deliver 1,
+   .deliver 1, .deliver 1]
 
-/-- `CutGuard` is needed. `ReplicationClient.InitSync` stores the id H answered by the leader as its own `currentAofId`
-BEFORE any record has arrived. Cut there: the reconnect reports H, `handleInitSync` finds H in the buffer and resumes
-after it; the follower holds none of the records 1 … H, and "everything delivered" (`idle`) is reached with log `[3]`.
-(Confirmed on real processes, scenario `filecut0`.) The sequence fails `SGuarded` exactly at the `cut`. -/
-theorem C09_resync_fails_early_cut :
+/-- The connection is cut between "started" of a transfer from scratch and its first record. Before `fix: InitSync …` the
+follower then reported H (= 2), was resumed after it and ended with log `[3]`. Now it still reports nothing, is transferred
+from scratch again and ends with the leader's log. -/
+theorem C09_early_cut_repaired :
+    SGuarded (Sync.init 256 256) earlyCut ∧
+    (sstep (srun (Sync.init 256 256) (earlyCut.take 5)) (.connect 1)).2 = .full 2 ∧
     (srun (Sync.init 256 256) earlyCut).log = [1, 2, 3] ∧
-    (getF (srun (Sync.init 256 256) earlyCut).fols 1).log = [3] ∧
-    (getF (srun (Sync.init 256 256) earlyCut).fols 1).conn = .stream ∧
-    (sstep (srun (Sync.init 256 256) earlyCut) (.deliver 1)).2 = .idle ∧
-    ¬ SGuarded (Sync.init 256 256) earlyCut ∧
-    SGuarded (Sync.init 256 256) (earlyCut.take 4) ∧ ¬ EvOk (srun (Sync.init 256 256) (earlyCut.take 4)) (.cut 1) := by decide
+    (getF (srun (Sync.init 256 256) earlyCut).fols 1).log = [1, 2, 3] ∧
+    (sstep (srun (Sync.init 256 256) earlyCut) (.deliver 1)).2 = .idle := by decide
+
+def staleStart : List Ev :=
+  [.append 0, .connect 1, .append 200, .append 0, .append 0, .append 200, .append 0, .start 1,
+   .deliver 1, .deliver 1, .deliver 1]
+
+/-- `Head` positions the channel's cursor on record 1 (seq 0); before "started" arrives five pushes recycle that item. Before
+`fix: AddPoll …` the follower was then sent 1, 3, 4 and EOF for ever. Now the channel gets "out of buf" after record 1 and
+closes; the follower (log `[1]`, id 1) reconnects and is resynchronised. -/
+theorem C09_stale_start_repaired :
+    SGuarded (Sync.init 256 256) staleStart ∧
+    (getF (srun (Sync.init 256 256) staleStart).fols 1).log = [1] ∧
+    (getF (srun (Sync.init 256 256) staleStart).fols 1).conn = .off ∧
+    (sstep (srun (Sync.init 256 256) staleStart) (.connect 1)).2 = .retryFull 6 := by decide
 
 def emptyBuffer : List Ev := [.connect 1, .start 1, .append 0, .append 0, .append 0, .deliver 1, .deliver 1, .deliver 1]
 
-/-- `FreshGuard` is needed. Handshake on an empty buffer: the cursor keeps no position, its first `Pop` takes the oldest
+/-- `FreshGuard` is still needed (not repaired). Handshake on an empty buffer: the cursor keeps no position, its first `Pop` takes the oldest
 buffered record without the continuity check; with a 64-byte buffer records 1 and 2 are gone by then. -/
 theorem C09_resync_fails_empty_buffer :
     (srun (Sync.init 64 64) emptyBuffer).log = [1, 2, 3] ∧
@@ -194,20 +198,6 @@ theorem C09_resync_fails_empty_buffer :
     (sstep (srun (Sync.init 64 64) emptyBuffer) (.deliver 1)).2 = .idle ∧
     ¬ SGuarded (Sync.init 64 64) emptyBuffer ∧
     SGuarded (Sync.init 64 64) (emptyBuffer.take 6) ∧ ¬ EvOk (srun (Sync.init 64 64) (emptyBuffer.take 6)) (.deliver 1) := by decide
-
-def staleStart : List Ev :=
-  [.append 0, .connect 1, .append 200, .append 0, .append 0, .append 200, .append 0, .start 1,
-   .deliver 1, .deliver 1, .deliver 1, .deliver 1, .deliver 1, .deliver 1]
-
-/-- `AddGuard` is needed. `Head` positions the channel's cursor on record 1 (seq 0); before the "started" message arrives
-five pushes recycle that item and two more into the free list; AddPoll then walks the free list; the follower is sent
-record 1, then the stale items 3 and 4, then EOF for ever: log `[1, 3, 4]` of 6. -/
-theorem C09_resync_fails_stale_addpoll :
-    (srun (Sync.init 256 256) staleStart).log = [1, 2, 3, 4, 5, 6] ∧
-    (getF (srun (Sync.init 256 256) staleStart).fols 1).log = [1, 3, 4] ∧
-    (sstep (srun (Sync.init 256 256) staleStart) (.deliver 1)).2 = .idle ∧
-    ¬ SGuarded (Sync.init 256 256) staleStart ∧
-    SGuarded (Sync.init 256 256) (staleStart.take 7) ∧ ¬ EvOk (srun (Sync.init 256 256) (staleStart.take 7)) (.start 1) := by decide
 
 /-! ### the guards are satisfiable: a guarded run through every event kind and every handshake answer -/
 
